@@ -25,7 +25,7 @@ PY = sys.executable
 TIERS = {
     'C16': {'quick': {'runs': 2400, 'det': 48, 'sweeps': 13, 'max_seconds': 700},
             'thorough': {'runs': 60000, 'det': 512, 'sweeps': 400, 'max_seconds': 5000}},
-    'C17': {'quick': {'runs': 6000, 'det': 48, 'fresh': 16, 'max_seconds': 700},
+    'C17': {'quick': {'runs': 6000, 'det': 48, 'fresh': 40, 'max_seconds': 700},
             'thorough': {'runs': 400000, 'det': 512, 'fresh': 300, 'max_seconds': 5000}},
 }
 
@@ -175,6 +175,8 @@ def _digests(prop, tier, master, idxs, with_calls=False):
     out = {}
     for i in idxs:
         seed = run_seed(master, prop, tier, i)
+        if with_calls:
+            CTX.oracle_log = []
         if prop == 'C16':
             summ, spec, res, v = c16.run_one(CTX, seed, tier)
         else:
@@ -182,7 +184,16 @@ def _digests(prop, tier, master, idxs, with_calls=False):
         cp = _call_prints(prop, spec, res)
         out[str(i)] = {'digest': summ['digest'] + ('!' if v else ''), 'calls': [[a, b] for a, b, _ in cp]}
         if with_calls:
-            out[str(i)]['call_objs'] = [c for _, _, c in cp]
+            # the run's own calls plus every reference call its generation asked for
+            from .workload import call_key
+            seen, objs = set(), []
+            for c in [c for _, _, c in cp] + CTX.oracle_log:
+                k = call_key(c)
+                if k not in seen:
+                    seen.add(k)
+                    objs.append(c)
+            out[str(i)]['call_objs'] = objs
+            CTX.oracle_log = None
     return out
 
 
@@ -217,8 +228,23 @@ def _fresh_batch(prop, tier, master, n):
     g = Gen(rng, CTX)
     bad = []
     done = 0
+    from . import c17
+    from .workload import mk
+    pending = []
     for _ in range(n):
-        c = g.call('all', g.base() if rng.random() < 0.6 else None)
+        x = rng.random()
+        if pending:
+            c = pending.pop()
+        elif x < 0.35:
+            # tie-prone inputs: vertices of a cell looked up again at its own resolution, poles, whole degrees
+            w = [q for q in c17.vertex_walk(g, CTX) if q['f'] == 'lonlat_to_cell']
+            rng.shuffle(w)
+            pending = w[:3]
+            c = pending.pop() if pending else g.call('all', None)
+        elif x < 0.5:
+            c = mk('lonlat_to_cell', (float(rng.randrange(-180, 181, 15)), float(rng.choice([-90, 90, 0, 45, -45, 30, 60]))), g.res(0, 20))
+        else:
+            c = g.call('all', g.base() if rng.random() < 0.6 else None)
         if not CTX.usable(c):
             continue
         o = CTX.oracle(c)['outcome']
@@ -333,6 +359,7 @@ def main(argv=None):
     ap.add_argument('--workers', type=int, default=int(os.environ.get('VERIF_WORKERS') or 0) or min(16, os.cpu_count() or 4))
     ap.add_argument('--runs', type=int)
     ap.add_argument('--digests', type=int, help='print digests of the first N runs as JSON and exit')
+    ap.add_argument('--digest-idx', help='comma-separated run indices for --digests (instead of the first N)')
     ap.add_argument('--no-evidence', action='store_true')
     ap.add_argument('--max-seconds', type=float, default=float(os.environ.get('VERIF_MAX_SECONDS') or 0))
     args = ap.parse_args(argv)
@@ -364,6 +391,13 @@ def main(argv=None):
         # not what this check decides: report as harness error
         harness_error('cannot import a5 from %s: %s: %s' % (root, type(e).__name__, e))
 
+    if CTX.template_warmed:
+        # the hot-line scan executed library code (it must not): start again without it, from a cold template
+        sys.stderr.write('a5sim: static scan executed %d a5 line events; restarting without it\n' % CTX.template_warmed)
+        env = dict(os.environ)
+        env['A5SIM_NO_HOT'] = '1'
+        os.execve(PY, [PY, os.path.join(VERIF, 'check')] + (argv if argv is not None else sys.argv[1:]), env)
+
     if args.replay:
         try:
             v1, o1 = do_replay(prop, args.replay, root)
@@ -386,7 +420,7 @@ def main(argv=None):
 
     if args.digests:
         out = {}
-        idxs = list(range(args.digests))
+        idxs = [int(x) for x in args.digest_idx.split(',')] if args.digest_idx else list(range(args.digests))
         with ProcessPoolExecutor(args.workers, mp_context=mpctx) as ex:
             futs = [ex.submit(_digests, prop, tier, master, idxs[j::args.workers]) for j in range(args.workers)]
             for f in futs:
@@ -494,17 +528,24 @@ def main(argv=None):
     # determinism self-test: first N runs again, fresh process, other hash seed, other worker count
     det = {'runs': 0, 'equal': 0}
     ndet = min(cfg.get('det', 0), cfg['runs'])
-    if ndet:
+    def other_execution(hashseed, n, idx=None):
         env = dict(os.environ)
-        env['PYTHONHASHSEED'] = str(1 + (master * 7919 + 12345) % 1000003)
+        env['PYTHONHASHSEED'] = str(hashseed)
         env['A5SIM_REEXEC'] = '1'
         env['VERIF_SEED'] = str(master)
-        p = subprocess.run([PY, os.path.join(VERIF, 'check'), prop, '--tier', tier, '--digests', str(ndet), '--workers', '3',
-                            '--a5-root', root], capture_output=True, text=True, timeout=3000, env=env)
+        cmd = [PY, os.path.join(VERIF, 'check'), prop, '--tier', tier, '--digests', str(n), '--workers', '3', '--a5-root', root]
+        if idx:
+            cmd += ['--digest-idx', ','.join(str(i) for i in idx)]
+        p = subprocess.run(cmd, capture_output=True, text=True, timeout=3000, env=env)
         line = [l for l in p.stdout.splitlines() if l.startswith('@@DIGESTS ')]
         if p.returncode != 0 or not line:
             harness_error('determinism self-test could not run: %s' % p.stderr[-800:])
-        second = json.loads(line[0][len('@@DIGESTS '):])
+        return json.loads(line[0][len('@@DIGESTS '):])
+
+    if ndet:
+        own_seed = int(os.environ.get('PYTHONHASHSEED') or 0)
+        env = {'PYTHONHASHSEED': str(1 + (master * 7919 + 12345) % 1000003)}
+        second = other_execution(env['PYTHONHASHSEED'], ndet)
         first = agg.digest_by_index
         diff = [i for i in range(ndet) if i in first and second.get(str(i), {}).get('digest') != first[i]]
         det = {'runs': ndet, 'equal': ndet - len(diff), 'second_hashseed': env['PYTHONHASHSEED'], 'second_workers': 3}
@@ -513,21 +554,39 @@ def main(argv=None):
             # call with identical arguments and a different outcome; confirm it in fresh interpreters.
             seeds = [int(os.environ.get('PYTHONHASHSEED') or 0), int(env['PYTHONHASHSEED'])]
             culprit = None
+            tested = 0
             for i in diff[:6]:
                 mine = _digests(prop, tier, master, [i], with_calls=True)[str(i)]
-                theirs = second[str(i)]['calls']
-                for (ka, oa), (kb, ob), c in zip(mine['calls'], theirs, mine['call_objs']):
-                    if ka != kb:
+                # every call of the run, and every reference call its generation needed (a generator fed with an
+                # interpreter-dependent value produces different runs), in fresh interpreters under both seeds
+                for c in mine['call_objs']:
+                    if tested >= 160:
                         break
-                    if oa != ob:
+                    tested += 1
+                    a = _fresh_value(root, c, seeds[0])
+                    b = _fresh_value(root, c, seeds[1])
+                    if a != b:
                         differs, vals = interpreter_dependence(root, c, seeds)
                         if differs:
                             culprit = (c, vals)
-                        break
-                if culprit:
+                            break
+                if culprit or tested >= 160:
                     break
             if culprit is None:
-                harness_error('simulator is not deterministic: run indices %s differ between two executions' % diff[:10])
+                # no result of the library differs.  Is the simulator reproducible under the hash seed it pins?
+                third = other_execution(own_seed, len(diff[:12]), diff[:12])
+                still = [i for i in diff[:12] if third.get(str(i), {}).get('digest') != first[i]]
+                if still:
+                    harness_error('simulator is not deterministic: run indices %s differ between two executions '
+                                  'with the same PYTHONHASHSEED' % still[:10])
+                print('NOTE: %d of %d runs take a different number of steps under PYTHONHASHSEED=%s than under %s '
+                      '(hash-order dependent control flow in the library); no returned value differs in the %d calls '
+                      'tried in fresh interpreters; runs and replays are reproducible under the pinned seed %s'
+                      % (len(diff), ndet, seeds[1], seeds[0], tested, seeds[0]), flush=True)
+                det['hash_order_dependent_control_flow'] = len(diff)
+                det['equal'] = ndet
+                diff = []
+        if diff:
             viol = interpreter_violation(culprit[0], seeds, culprit[1])
             if prop == 'C17':
                 path = write_replay(prop, tier, master, root, viol)
